@@ -62,6 +62,10 @@ def cases(shard, tier):
         # that set was refused because of its name
         for kind in ('no_format', 'frame'):
             yield {'header': {'seq': 1, 'idlen': 8, 'ident': '0', 'nlf': 1, 'defined_before_data': kind}}
+        # the ORIGIN set follows the header also when the logical file's first add_origin call was refused (after other
+        # objects had been added) and the origin came with a second call
+        for bad in ('creation_time', 'well_id', 'name'):
+            yield {'header': {'seq': 1, 'idlen': 8, 'ident': '0', 'nlf': 1, 'refused_first_origin': bad}}
         # identifier contents: digits only, blanks at either end, lower case, punctuation (must stay left-justified)
         for idtext in ('20240917', '7', '001', ' LEADING-BLANK', 'TRAILING-BLANK ', 'mixed Case 12', '-', '1e5', '+42'):
             for seq in (1, 7777777777):
@@ -97,6 +101,25 @@ def run_case(case):
         hd = case['header']
         sp = header_spec(hd)
         valid = 1 <= hd['seq'] and hd['seq'] + hd['nlf'] - 1 <= 9999999999 and hd['idlen'] <= 65 and len(hd['ident']) == 1
+        if hd.get('refused_first_origin'):
+            bad = hd['refused_first_origin']
+            kwb = {'creation_time': 'not a date'} if bad == 'creation_time' else {'well_id': 5} if bad == 'well_id' else {}
+            rej = S.op_origin('RJ', 5 if bad == 'name' else 'REFUSED', **kwb)
+            rej['expect'] = 'raise'
+            origin = sp['ops'][1]
+            sp['ops'] = [sp['ops'][0]] + sp['ops'][2:] + [rej, origin, S.op_add('zone', 'ZL', 'ZONE-ADDED-LAST')]
+            res = S.run_spec(sp)
+            if res['failed_at'] is not None or res['write'] != 'ok':
+                why = res['status'][-1] if res['failed_at'] is not None else res['write']
+                return Outcome('raised', [("C09:refused-first-origin:valid-rejected", f"{why} | {hd}")], True)
+            try:
+                lf = R.split_logical_files(R.parse_physical(res['data']))[0]
+                m = M.Model(sp)
+                for code, d in M.check_header_and_order(m, m.lfs[0], lf):
+                    viol.append((f"C09:{code}:after-refused-first-origin", f"{d[:300]} | {hd}"))
+            except R.FormatError as e:
+                viol.append((f"C09:unparsable:{e.code}", f"{e} | {hd}"))
+            return Outcome('refused-first-origin', viol, True, digest=sha(res['data']))
         if hd.get('defined_before_data'):
             k = hd['defined_before_data']
             if k == 'no_format':
